@@ -81,6 +81,7 @@ class VTimer:
             self.station.log.append(("cancel", self.key()))
             if self.station.timers.get(self.key()) is self:
                 del self.station.timers[self.key()]
+            self.station.dead[self.key()] = self     # may still "fire" (race: expiry already under way when cancelled)
         self.active = False
 
     def fire(self):
@@ -173,7 +174,7 @@ class Station:
                   itsGnAreaForwardingAlgorithm=AreaForwardingAlgorithm.CBF if cfg["cbf"] else AreaForwardingAlgorithm.SIMPLE,
                   itsGnMaxPacketDataRate=cfg["pdr_max"])
         self.r = Router(mib)
-        self.log, self.timers = [], {}
+        self.log, self.timers, self.dead = [], {}, {}
         self.r.link_layer = _LL(self)
         self.r.register_indication_callback(lambda ind: self.log.append(("deliver", ind)))
         self.r.ego_position_vector = lpv(self_addr, cfg["base"], pos[0], pos[1])
@@ -245,7 +246,9 @@ class Station:
     def fire(self, key):
         self.log = []
         t = self.timers.pop(key, None)
-        if t is not None and t.active:
+        if t is None:
+            t = self.dead.pop(key, None)      # expiry racing with a cancellation: _cbf_timeout must find nothing to send
+        if t is not None:
             with rs.quiet():
                 t.fire()
         entries = self.log
@@ -415,6 +418,21 @@ def gen_single(rng, n_ops):
             continue
         if x < 0.24 and sent:
             ops.append(["fire", rng.choice(sent)[1]])
+            continue
+        if cfg["cbf"] and rng.random() < 0.2:
+            # contention scenario: GBC into an area around ego, overheard again (or not) before the timer expires
+            a = rng.choice(srcs)
+            T = now - rng.randrange(0, 1000)
+            sn = next_sn[a]
+            next_sn[a] = (sn + 1) % 65536
+            fr = frame("gbc", lpv(a, T, *pos[a]), sn=sn, rhl=rng.choice([2, 3, 10]), mhl=10,
+                       area=(EGO[0], EGO[1], 500, 500, 0), payload=b"cbf")
+            sent.append((fr.hex(), [a, sn], T))
+            ops.append(["rx", fr.hex(), T, now])
+            for _ in range(rng.randrange(0, 3)):
+                now += rng.randrange(0, 50)
+                ops.append(["rx", fr.hex(), T, now] if rng.random() < 0.7 else ["fire", [a, sn]])
+            ops.append(["fire", [a, sn]])
             continue
         if x < 0.40 and sent:                      # exact duplicate / replay of an earlier frame
             j = rng.randrange(len(sent)) if rng.random() < 0.4 else max(0, len(sent) - 1 - rng.randrange(3))
@@ -693,18 +711,23 @@ def run(ctx):
                          "harness-fired timers, beacons/SHB for neighbour state, clock steps up to 3 lifetimes) and floods on "
                          "line/ring/mesh topologies of 3-5 real routers; distinct_nontrivial counts distinct histories/topologies")
     with Patched() as clock:
+        wit = next((k.get("witness") for k in ctx.known if k["id"] == "C06-KF1"), None)
+        if wit:
+            _, _, wbad, _ = run_single(wit, clock)
+            ctx.extra["variant"] = {"C06-KF1": "duplicate list dies with the LocTE (code as is)"
+                                    if any(kf == "C06-KF1" for _, _, kf in wbad) else "stale replay suppressed (repaired)"}
         for name, c in corpus("C06"):
             if c.get("kind") == "single":
                 check_single(ctx, c, clock)
             elif c.get("kind") == "topo":
                 check_topo(ctx, c, clock)
             ctx.cover("corpus_cases")
-        for i in range(ctx.scale(250, 10000)):
-            case = gen_single(ctx.rng, ctx.rng.randrange(5, ctx.scale(50, 200)))
+        for i in range(ctx.scale(250, 20000)):
+            case = gen_single(ctx.rng, ctx.rng.randrange(5, ctx.scale(50, 120)))
             check_single(ctx, case, clock)
             if i == 0:
                 ctx.sample("single", {"cfg": case["cfg"], "n_ops": len(case["ops"])})
-        for i in range(ctx.scale(40, 2000)):
+        for i in range(ctx.scale(40, 6000)):
             case = gen_topo(ctx.rng)
             check_topo(ctx, case, clock)
             if i == 0:
